@@ -247,6 +247,8 @@ pub struct MockNode {
     pub conns: Mutex<Vec<Arc<Conn>>>,
     /// number of PREPARE / non-system request frames seen (cheap counters for checks)
     pub prepares_seen: AtomicU64,
+    /// delay (ms) before this node answers OPTIONS: makes connection setup slow
+    pub handshake_delay_ms: AtomicU64,
     stop: Mutex<Option<watch::Sender<bool>>>,
 }
 
@@ -496,6 +498,7 @@ impl MockCluster {
             prepared: Mutex::new(HashMap::new()),
             conns: Mutex::new(Vec::new()),
             prepares_seen: AtomicU64::new(0),
+            handshake_delay_ms: AtomicU64::new(0),
             stop: Mutex::new(None),
         });
         self.inner.nodes.write().unwrap().push(node.clone());
@@ -873,7 +876,16 @@ fn handle_frame(inner: &Arc<ClusterInner>, node: &Arc<MockNode>, conn: &Arc<Conn
     // handshake frames are always served by the node itself
     match &*req {
         Request::Options => {
-            rq.reply(&Response::Supported(supported_options(node, conn.shard)));
+            let d = node.handshake_delay_ms.load(Ordering::SeqCst);
+            let resp = Response::Supported(supported_options(node, conn.shard));
+            if d > 0 && !conn.started.load(Ordering::SeqCst) {
+                tokio::spawn(async move {
+                    tokio::time::sleep(Duration::from_millis(d)).await;
+                    rq.reply(&resp);
+                });
+            } else {
+                rq.reply(&resp);
+            }
             return;
         }
         Request::Startup { options } => {
